@@ -471,9 +471,49 @@ def namespace_subscription_case():
     return None
 
 
+def forged_wellknown_sender_case():
+    """whatever the originator wrote into the sender field - even a well-known name it owns or waits for - the destination
+    sees the true unique name"""
+    from txdbus import message
+    net = Net()
+    a, b, c = net.connect(), net.connect(), net.connect()
+    N = 'org.verif.Owned'
+    a.call_bus('RequestName', 'su', [N, 0])
+    c.call_bus('RequestName', 'su', [N, 0])          # c waits in the queue
+    for p in (a, b, c):
+        p.drain()
+    for who in (a, c):
+        for forged in (N, b.name, 'org.verif.Unrelated'):
+            m = message.SignalMessage('/o', 'S', 'org.e.I', destination=b.name, signature='s', body=['x'])
+            m.sender = forged
+            m._marshal(False)
+            who.send(m)
+            got = [x for x in b.drain() if getattr(x, 'member', None) == 'S']
+            if len(got) != 1 or got[0].sender != who.name:
+                return 'a message from %s carrying sender=%r arrived with sender %r' % (who.name, forged, [x.sender for x in got])
+    return None
+
+
+def big_endian_client_case():
+    """a message encoded big-endian by its sender arrives decodable with the same header fields and body"""
+    from . import message_harness as MH
+    from . import wire_ref as W
+    net = Net()
+    a, b = net.connect(), net.connect()
+    for body_sig, body_vals in (('s', ['text']), ('ai', [[1, 2, 3]]), ('a{sv}', [{'k': W.Variant('u', 7)}]), ('(ix)y', [[5, -2], 9])):
+        for le in (False, True):
+            raw = MH.ref_message(4, 0, 4242, [(1, '/o'), (2, 'org.e.I'), (3, 'Sig'), (6, b.name), (8, body_sig)], body_sig, body_vals, le)
+            a.proto.dataReceived(raw)
+            got = [x for x in b.drain() if getattr(x, 'member', None) == 'Sig']
+            want = [W.canon(ct, v) for ct, v in zip(W.split(body_sig), body_vals)]
+            if len(got) != 1 or got[0].sender != a.name or got[0].serial != 4242 or not W.same(got[0].body, want):
+                return 'a %s-endian signal with body %r %r arrived as %r' % ('little' if le else 'big', body_sig, body_vals, [(x.sender, x.serial, x.body) for x in got])
+    return None
+
+
 def bounded(tier, seed):
     n = 0
-    for case in (order_case, prehello_case, dead_subscriber_case, takeover_case, namespace_subscription_case):
+    for case in (order_case, prehello_case, dead_subscriber_case, takeover_case, namespace_subscription_case, forged_wellknown_sender_case, big_endian_client_case):
         n += 1
         try:
             f = case()
